@@ -46,7 +46,8 @@ def fixed_table():
     for (pid, commit), fs in sorted(by_commit.items()):
         what = re.sub(r"^fixed: property=\S+ \S+ ", "", fs[0]["line"])
         rows.append(f"| {pid} | `{commit}` | {esc(what)} | {len(fs)} |")
-    return "\n".join(rows) + f"\n\n{len(by_commit)} fix commits, {sum(len(v) for v in by_commit.values())} committed regression replays."
+    ncommits = len({c for _, c in by_commit})
+    return "\n".join(rows) + f"\n\n{ncommits} distinct fix commits ({len(by_commit)} rows: a commit that repairs a cause seen under two properties is listed under both), {sum(len(v) for v in by_commit.values())} committed regression replays."
 
 
 def known_table():
